@@ -119,6 +119,17 @@ def rule_b(ctx: Context, R: Reporter, hc: ClassInfo):
     flow = flow_of(fit.node)
     cfg = flow.cfg
     n = 0
+    # locals that hold the minimum size: bound from the configured attribute, directly or in one branch of the default
+    # (`m = self.min_points if .. else 2 * d`, or the if/else statement form with the attribute in the test)
+    mp_locals = set()
+    for ds_ in flow.defs_at.values():
+        for d_ in ds_:
+            if d_.kind != "assign" or d_.value is None or d_.node is None:
+                continue
+            reads_attr = any(isinstance(a_, ast.Attribute) and a_.attr == "min_points" and isinstance(a_.ctx, ast.Load) for a_ in ast.walk(d_.value))
+            under_attr_test = any(isinstance(a_, ast.Attribute) and a_.attr == "min_points" for (t_, _p) in conds_holding_at(cfg, d_.node) for a_ in ast.walk(t_))
+            if reads_attr or under_attr_test:
+                mp_locals.add(d_.name)
     for nd in cfg.stmt_nodes():
         if nd.kind == "stmt" and isinstance(nd.stmt, ast.Assign) and isinstance(nd.stmt.value, ast.Tuple) and len(nd.stmt.value.elts) == 2 and all(isinstance(e, ast.Name) for e in nd.stmt.value.elts) and nd.loops:
             kids = [e.id for e in nd.stmt.value.elts]
@@ -130,7 +141,13 @@ def rule_b(ctx: Context, R: Reporter, hc: ClassInfo):
             tested = set()
             for (t, pol) in facts:
                 if pol and isinstance(t, ast.Compare) and len(t.ops) == 1 and isinstance(t.ops[0], (ast.GtE, ast.Gt)) and isinstance(t.left, ast.Call) and dotted(t.left.func) == "len" and t.left.args and isinstance(t.left.args[0], ast.Name):
-                    if norm_text(t.comparators[0]) == "min_points" and isinstance(t.ops[0], ast.GtE):
+                    # the threshold is identified by what it is (the configured minimum size, possibly through its
+                    # defaulting local), not by the name of the local that holds it
+                    thr = ExprResolver(fit.node).resolve(t.comparators[0], nd)
+                    is_min = any((isinstance(a_, ast.Attribute) and a_.attr == "min_points") or (isinstance(a_, ast.Name) and a_.id == "min_points" and a_.id in fit.params) for a_ in ast.walk(thr)) \
+                        or norm_text(t.comparators[0]) == "min_points" \
+                        or (isinstance(t.comparators[0], ast.Name) and t.comparators[0].id in mp_locals)
+                    if is_min and isinstance(t.ops[0], ast.GtE):
                         tested.add(t.left.args[0].id)
             missing = [k for k in kids if k not in tested]
             R.check("C15.b", "an accepted split is dominated by len(child) >= min_points for both children", not missing, fit, nd.stmt,
@@ -138,7 +155,13 @@ def rule_b(ctx: Context, R: Reporter, hc: ClassInfo):
                     key="min-size-both-children")
     R.floor("C15.b", "accepted-split assignments", n, 1)
     # min_points default: the attribute or 2 * n_features
-    mp = [d for ds in flow.defs_at.values() for d in ds if d.name == "min_points" and d.kind == "assign"]
+    # the local that holds the threshold, found by what it is bound to (a value that reads the configured
+    # `self.min_points`), whatever the local is called
+    mp_names = set(mp_locals)
+    if len(mp_names) != 1:
+        mp_names = {"min_points"}
+    mp_local = next(iter(mp_names))
+    mp = [d for ds in flow.defs_at.values() for d in ds if d.name == mp_local and d.kind == "assign"]
     mp_ok = len(mp) == 1 and isinstance(mp[0].value, ast.IfExp)
     if len(mp) == 2:
         # the statement form: if <none test>: min_points = a / else: min_points = b
@@ -323,10 +346,14 @@ def rule_g(ctx: Context, R: Reporter, gc: ClassInfo):
     ps = [p for p in m.params if p != "self"]
     X = ps[0]
     n = 0
-    # means
+    # means: the local the M-step hands back as its second value (weights, means, covariances), whatever it is called
+    means_name = "means"
+    for r_ in walk_no_nested(m.node):
+        if isinstance(r_, ast.Return) and isinstance(r_.value, ast.Tuple) and len(r_.value.elts) == 3 and isinstance(r_.value.elts[1], ast.Name):
+            means_name = r_.value.elts[1].id
     rs = ExprResolver(m.node)
     for nd in flow.cfg.stmt_nodes():
-        if nd.kind == "stmt" and isinstance(nd.stmt, ast.Assign) and isinstance(nd.stmt.targets[0], ast.Name) and nd.stmt.targets[0].id == "means":
+        if nd.kind == "stmt" and isinstance(nd.stmt, ast.Assign) and isinstance(nd.stmt.targets[0], ast.Name) and nd.stmt.targets[0].id == means_name:
             n += 1
             v = nd.stmt.value
             ok = False
